@@ -5,11 +5,14 @@ import (
 	"encoding/hex"
 	"encoding/json"
 	"fmt"
+	"os"
+	"regexp"
 	"sort"
 	"strings"
 	"sync"
 	"time"
 
+	"verifharness/evidence"
 	"verifharness/fakecluster"
 	"verifharness/rclient"
 	"verifharness/refmodel"
@@ -119,6 +122,7 @@ type PipeSpec struct {
 	Present      []Bin      `json:"present,omitempty"`           // keys of migrating slots that are still at the source
 	RedirDelayMs int        `json:"redirect_delay_ms,omitempty"` // redirection replies are sent this late (they can arrive after the request was completed otherwise)
 	DeadAddr     string     `json:"-"`
+	nonce        string
 }
 
 // SlotNode says which node really owns a slot.
@@ -200,6 +204,7 @@ type PipeResult struct {
 	Clients []ClientResult
 	Log     []*fakecluster.Request
 	Held    int
+	nonce   string
 }
 
 type heldGate struct {
@@ -439,7 +444,7 @@ func runPipesQuiet(f *Fixture, spec *PipeSpec, want []int, deadline, quiet time.
 	defer f.Cluster.SetHandler(nil)
 
 	abandon(f, spec.Abandoned)
-	res := &PipeResult{Clients: make([]ClientResult, len(spec.Clients))}
+	res := &PipeResult{Clients: make([]ClientResult, len(spec.Clients)), nonce: spec.nonce}
 	clients := make([]*rclient.Client, len(spec.Clients))
 	for i := range spec.Clients {
 		c, err := rclient.Dial(f.Proxy.Addr(), spec.Clients[i].Src)
@@ -650,6 +655,10 @@ func (res *PipeResult) collect(f *Fixture, clients []*rclient.Client) *PipeResul
 	for _, r := range f.Cluster.Log() {
 		if k := r.Key(1); strings.Contains(k, "}witness-") || strings.HasSuffix(k, "}ready") {
 			continue // the harness' own probes
+		}
+		if foreignNonce(r, res.nonce) {
+			evidence.For(os.Getenv("VERIF_PROP")).Add("stale_backend_requests_of_earlier_cases_ignored", 1)
+			continue
 		}
 		res.Log = append(res.Log, r)
 	}
@@ -1006,4 +1015,60 @@ func runSlowReader(f *Fixture, spec *PipeSpec, want int) *PipeResult {
 	}
 	c.WaitReplies(want, 10*time.Second)
 	return res.collect(f, []*rclient.Client{c})
+}
+
+// ---- per-execution nonce ------------------------------------------------------------------------------
+// Generated keys carry a token c<client>r<request>k<key>. Before a case is executed its tokens are stamped with a
+// nonce unique to this execution (c0r3k1~17.42), so that a backend request still travelling from an earlier case
+// (a late re-send after a redirection, say) cannot be mistaken for one of this case: collect() drops logged
+// requests whose token carries a foreign nonce and counts them.
+
+var tokenRe = regexp.MustCompile(`c\d+r\d+k\d+`)
+var stampedRe = regexp.MustCompile(`c\d+r\d+k\d+~([0-9.]+)`)
+
+func stampBin(b Bin, nonce string) Bin {
+	if b == nil || !tokenRe.Match(b) {
+		return b
+	}
+	return Bin(tokenRe.ReplaceAll(b, []byte("${0}~"+nonce)))
+}
+
+// stampSpec returns a deep copy of spec with every key token stamped.
+func stampSpec(spec *PipeSpec, nonce string) *PipeSpec {
+	raw, _ := json.Marshal(spec)
+	var out PipeSpec
+	json.Unmarshal(raw, &out)
+	out.DeadAddr = spec.DeadAddr
+	for ci := range out.Clients {
+		for ri := range out.Clients[ci].Reqs {
+			r := &out.Clients[ci].Reqs[ri]
+			for ai := range r.Args {
+				r.Args[ai] = stampBin(r.Args[ai], nonce)
+			}
+		}
+	}
+	for i := range out.Plans {
+		out.Plans[i].Key = stampBin(out.Plans[i].Key, nonce)
+	}
+	for i := range out.Values {
+		out.Values[i].Key = stampBin(out.Values[i].Key, nonce)
+	}
+	for i := range out.Present {
+		out.Present[i] = stampBin(out.Present[i], nonce)
+	}
+	out.nonce = nonce
+	return &out
+}
+
+// foreignNonce reports whether a logged request carries the token of another execution.
+func foreignNonce(r *fakecluster.Request, nonce string) bool {
+	if nonce == "" {
+		return false
+	}
+	for _, a := range r.Args[1:] {
+		if m := stampedRe.FindSubmatch(a); m != nil && string(m[1]) != nonce {
+			return true
+		}
+	}
+	return false
 }
